@@ -248,6 +248,14 @@ def member(t, bb, idx, nd=2):
     return tt[tuple(idx)] if len(bb) else tt
 
 
+def spec_lit(e, bb, idx):
+    """cells of a known finding: the operator as specified (None elsewhere)"""
+    if e["cls"] == "TriPlusDiag":
+        m = member(dense(e), bb, idx)
+        return "(Some (DTriDense %s %d%%N %s))" % (common.coq_bool(e["upper"]), m.shape[-1], mat_lit(m))
+    return "None"
+
+
 def opd_lit(e, bb, idx):
     c = e["cls"]
     if c in ("Dense", "Sum", "ConstantMul", "Toeplitz", "Root"):
@@ -268,10 +276,15 @@ def opd_lit(e, bb, idx):
         t = member(e["t"], bb, idx)
         return "(DChol %s %d%%N %s)" % (common.coq_bool(e["upper"]), t.shape[-1], mat_lit(t))
     if c == "CholInverse":
-        # inverse(): Linv = root.inverse() (same triangle as the root), relabelled with the opposite flag
-        t = member(e["t"], bb, idx)
-        tinv = torch.linalg.inv(t)
-        return "(DChol %s %d%%N %s)" % (common.coq_bool(not e["upper"]), t.shape[-1], mat_lit(tinv))
+        # the object inverse() returns is described as it is: a CholLinearOperator with its stored factor and
+        # flag (pinned tree: L^-1, same triangle as the root, labelled with the opposite flag), or any other class
+        import linear_operator.operators as O
+        op = build(e)
+        if isinstance(op, O.CholLinearOperator):
+            t = member(op.root.to_dense().detach(), bb, idx)
+            return "(DChol %s %d%%N %s)" % (common.coq_bool(bool(op.upper)), t.shape[-1], mat_lit(t))
+        m = member(dense(e), bb, idx)
+        return "(DGeneric %d%%N %s)" % (m.shape[-1], mat_lit(m))
     if c == "Tri":
         t = member(e["t"], bb, idx)
         return "(DTriDense %s %d%%N %s)" % (common.coq_bool(e["upper"]), t.shape[-1], mat_lit(t))
@@ -354,7 +367,8 @@ def gen(rng, cls, n, kappa, obatch=(), **kw):
     if cls == "Kron":
         sizes = kw["sizes"]
         kk = kappa ** (1.0 / len(sizes))
-        return {"cls": "Kron", "ops": [{"cls": "Dense", "t": spd(rng, m, kk, ob)} for m in sizes]}
+        fcls = kw.get("fcls") or ["Dense"] * len(sizes)
+        return {"cls": "Kron", "ops": [gen(rng, fc, m, kk, ob, **kw.get("fkw", {})) for fc, m in zip(fcls, sizes)]}
     if cls == "KronAddedDiag":
         sizes = kw["sizes"]
         kk = kappa ** (1.0 / len(sizes))
@@ -368,7 +382,7 @@ def gen(rng, cls, n, kappa, obatch=(), **kw):
         return {"cls": cls, "root": _randn(rng, *ob, n, k) * math.sqrt(kappa) / 2, "d": posvec(rng, n, 0.5, 2.0, ob)}
     if cls in ("BlockDiag", "BlockInterleaved"):
         k = kw["blocks"]
-        return {"cls": cls, "base": gen(rng, kw.get("base", "Dense"), n, kappa, ob + [k])}
+        return {"cls": cls, "base": gen(rng, kw.get("base", "Dense"), n, kappa, ob + [k], **kw.get("base_kw", {}))}
     if cls == "BatchRepeat":
         return {"cls": cls, "base": gen(rng, "Dense", n, kappa, kw.get("base_batch", ())), "rep": tuple(kw["rep"])}
     if cls == "Permutation":
